@@ -1,6 +1,6 @@
 CONSTANTS
   MaxNodes = 3
-  Conds = {"none", "skipA", "includeA", "includeB", "skipTrue"}
+  Conds = {"none", "skipA", "includeA", "includeB", "skipTrue", "includeAskipB"}
   Aliases = {"", "x"}
 INIT Init
 NEXT Next
